@@ -320,7 +320,9 @@ pub mod mach2 {
                         }
                     }
                     if let Some(lo) = lo {
-                        // temporarily writable
+                        // temporarily writable (the pages may lie inside a larger region)
+                        w.split_at(t0);
+                        w.split_at(t0 + n as u64);
                         let saved: Vec<(u64, i32)> = w.regions.range(t0..t0 + n as u64).map(|(k, r)| (*k, r.prot)).collect();
                         for (_, r) in w.regions.range_mut(t0..t0 + n as u64) {
                             r.prot |= crate::world::PROT_W;
